@@ -105,6 +105,7 @@ DOCUMENTED[('scalar', '*', 'Twist3')] = 'Twist3'
 DOCUMENTED[('Twist2', '*', 'Twist2')] = 'Twist2'
 DOCUMENTED[('Twist2', '*', 'SE2')] = 'SE2'
 DOCUMENTED[('Twist2', '*', 'scalar')] = 'Twist2'
+DOCUMENTED[('scalar', '*', 'Twist2')] = 'Twist2'      # Twist2.__mul__ operator table: scalar x Twist2 -> Twist2 (omitted here until session 3: see DESIGN 11.8, F44)
 DOCUMENTED[('SE3', '*', 'Plucker')] = 'Plucker'
 for _C in ('Twist3', 'Twist2', 'Plucker'):
     DOCUMENTED[(_C, '+', _C)] = _C          # inherited list concatenation of two sequences of the same class (C10)
